@@ -13,8 +13,8 @@
 EXTENDS PathTrieImpl, TLC, Json, IOUtils
 
 Forest == JsonDeserialize(IOEnv.TRACE_FILE)
-N      == Forest.nodes
-Roots  == Forest.roots
+(* Only Forest is a zero-arity constant definition (TLC evaluates each one once per worker and would
+   re-read the file for every further definition that mentions it). *)
 
 
 VARIABLES node,      \* current tree node (0 = before the first call)
@@ -24,7 +24,7 @@ VARIABLES node,      \* current tree node (0 = before the first call)
 
 tvars == <<vars, node, cstored, bad, drift>>
 
-Kids(k) == IF k = 0 THEN Roots ELSE N[k].kids
+Kids(k) == IF k = 0 THEN Forest.roots ELSE Forest.nodes[k].kids
 
 ContractRes(ev) ==
   CASE ev.op = "add"    -> PS!AddAccepted(cstored, ev.path)
@@ -53,7 +53,7 @@ ImplStep(ev) ==
     [] OTHER            -> PathExists(ev.path)
 
 Step(k) ==
-  LET ev == N[k] IN
+  LET ev == Forest.nodes[k] IN
   /\ node' = k
   /\ ImplStep(ev)
   /\ cstored' = ContractNext(ev)
